@@ -7,6 +7,51 @@ import (
 	"verif/harness/ref"
 )
 
+// fileView gives the storage-proof probes one interface over materialised files and virtual (sparse) files.
+type fileView struct {
+	n       uint64                                            // number of leaves
+	proof   func(i uint64) ([64]byte, []ref.H)                // honest proof of leaf i
+	flipped func(i uint64) ([64]byte, []ref.H)                // proof of leaf i of the same file with one byte of that leaf altered
+	other   func(t *rapid.T, idx uint64, label string) uint64 // another leaf index
+}
+
+func (w *World) view(root types.Hash256, filesize uint64) (*fileView, bool) {
+	if sf, ok := w.Sparse[root]; ok && sf.Size == filesize && filesize > 0 {
+		n := sf.NumLeaves()
+		return &fileView{n: n,
+			proof: func(i uint64) ([64]byte, []ref.H) { return sf.Proof(i) },
+			flipped: func(i uint64) ([64]byte, []ref.H) {
+				c := sf.Leaf(i)
+				c[0] ^= 0xFF
+				return sf.With(i, c).Proof(i)
+			},
+			other: func(t *rapid.T, idx uint64, label string) uint64 {
+				// the other half of the tree, the neighbour, the ends: positions whose paths differ at different levels
+				c := []uint64{(idx + n/2) % n, idx ^ 1, 0, n - 1, (idx + 1) % n, n / 2}
+				j := c[rapid.IntRange(0, len(c)-1).Draw(t, label)]
+				if j >= n || j == idx {
+					j = (idx + n/2 + 1) % n
+				}
+				return j
+			}}, true
+	}
+	data, known := w.Files[root]
+	if !known || uint64(len(data)) != filesize || filesize == 0 {
+		return nil, false
+	}
+	n := ref.NumLeaves64(filesize)
+	return &fileView{n: n,
+		proof: func(i uint64) ([64]byte, []ref.H) { return RefProof(data, root, int(i)) },
+		flipped: func(i uint64) ([64]byte, []ref.H) {
+			other := append([]byte(nil), data...)
+			other[int(i)*64] ^= 0xFF
+			return ref.FileProof(other, int(i))
+		},
+		other: func(t *rapid.T, idx uint64, label string) uint64 {
+			return (idx + 1 + uint64(rapid.IntRange(0, int(n)-2).Draw(t, label))) % n
+		}}, true
+}
+
 // ContractProbes records C07 probes derived from the honest block: unsound storage proofs
 // (another leaf, altered data, altered / truncated / extended path, other file, other contract,
 // wrong proof-index height) and rule-breaking revisions (sums, revision number, v2 missed host
@@ -39,8 +84,8 @@ func (a *Adv) ContractProbes() int {
 			continue
 		}
 		fc := e.FileContract
-		data, known := a.G.W.Files[fc.FileMerkleRoot]
-		if !known || uint64(len(data)) != fc.Filesize || fc.Filesize == 0 || fc.WindowStart == 0 {
+		fv, known := a.G.W.view(fc.FileMerkleRoot, fc.Filesize)
+		if !known || fc.WindowStart == 0 {
 			continue
 		}
 		windowID := a.G.C.Store.CI[fc.WindowStart-1].ChainIndex.ID
@@ -58,8 +103,8 @@ func (a *Adv) ContractProbes() int {
 		}
 		if nLeaves > 1 {
 			mk("other-leaf", func(p *types.StorageProof) bool {
-				j := (idx + 1 + uint64(rapid.IntRange(0, int(nLeaves)-2).Draw(t, "otherLeaf"))) % nLeaves
-				leaf, path := RefProof(data, fc.FileMerkleRoot, int(j))
+				j := fv.other(t, idx, "otherLeaf")
+				leaf, path := fv.proof(j)
 				if leaf == p.Leaf && samePath(path, p.Proof) {
 					return false
 				}
@@ -98,9 +143,7 @@ func (a *Adv) ContractProbes() int {
 			return true
 		})
 		mk("other-file-same-index", func(p *types.StorageProof) bool {
-			other := append([]byte(nil), data...)
-			other[int(idx)*64] ^= 0xFF
-			leaf, path := ref.FileProof(other, int(idx))
+			leaf, path := fv.flipped(idx)
 			p.Leaf, p.Proof = leaf, toHashes(path)
 			return true
 		})
@@ -214,8 +257,8 @@ func (a *Adv) ContractProbes() int {
 			}
 			res := orig.FileContractResolutions[ri]
 			fc := res.Parent.V2FileContract
-			data, known := a.G.W.Files[fc.FileMerkleRoot]
-			if !known || uint64(len(data)) != fc.Filesize || fc.Filesize == 0 {
+			fv, known := a.G.W.view(fc.FileMerkleRoot, fc.Filesize)
+			if !known {
 				continue
 			}
 			idx := ref.ChallengeIndex(fc.Filesize, sp.ProofIndex.ChainIndex.ID, res.Parent.ID)
@@ -233,8 +276,8 @@ func (a *Adv) ContractProbes() int {
 			}
 			if nLeaves > 1 {
 				mk("other-leaf", func(p *types.V2StorageProof) bool {
-					j := (idx + 1 + uint64(rapid.IntRange(0, int(nLeaves)-2).Draw(t, "otherLeaf2"))) % nLeaves
-					leaf, path := RefProof(data, fc.FileMerkleRoot, int(j))
+					j := fv.other(t, idx, "otherLeaf2")
+					leaf, path := fv.proof(j)
 					if leaf == p.Leaf && samePath(path, p.Proof) {
 						return false
 					}
@@ -262,9 +305,7 @@ func (a *Adv) ContractProbes() int {
 			})
 			mk("path-extended", func(p *types.V2StorageProof) bool { p.Proof = append(p.Proof, types.Hash256{1}); return true })
 			mk("other-file-same-index", func(p *types.V2StorageProof) bool {
-				other := append([]byte(nil), data...)
-				other[int(idx)*64] ^= 0xFF
-				leaf, path := ref.FileProof(other, int(idx))
+				leaf, path := fv.flipped(idx)
 				p.Leaf, p.Proof = leaf, toHashes(path)
 				return true
 			})
@@ -278,7 +319,7 @@ func (a *Adv) ContractProbes() int {
 					p.ProofIndex = a.G.C.Store.CI[h].Copy()
 					// an honest proof for the challenge that index would give
 					j := ref.ChallengeIndex(fc.Filesize, p.ProofIndex.ChainIndex.ID, res.Parent.ID)
-					leaf, path := RefProof(data, fc.FileMerkleRoot, int(j))
+					leaf, path := fv.proof(j)
 					p.Leaf, p.Proof = leaf, toHashes(path)
 					return true
 				})
@@ -362,7 +403,13 @@ func (a *Adv) ContractProbes() int {
 			}
 			return true
 		})
-		mk("filesize-over-capacity", func(fc *types.V2FileContract) bool { fc.Filesize = fc.Capacity + 1; return true })
+		mk("filesize-over-capacity", func(fc *types.V2FileContract) bool {
+			if fc.Capacity == ^uint64(0) {
+				return false // nothing is over the maximal capacity
+			}
+			fc.Filesize = fc.Capacity + 1
+			return true
+		})
 		mk("expiration-not-after-proof", func(fc *types.V2FileContract) bool { fc.ExpirationHeight = fc.ProofHeight; return true })
 	}
 	// ---- v2 renewal breaking the value split
